@@ -149,13 +149,18 @@ def run_family(prop, tier, plan, free_plan, assumptions, mc_extra=(), post=None,
                 steps = [{"a": "add", "id": 1, "ts": top}]
                 for i in range(2, int(3.5 * idle / gap) + 2):
                     ts = rng.randint(0, top) if rng.random() < 0.85 else top + rng.choice([0, 1])
+                    if kind == "session":
+                        ts = rng.randint(max(0, top - c["moo"]), top) if rng.random() < 0.9 else top + 1     # ties and in-bound stragglers of several keys
                     top = max(top, ts)
                     steps.append({"a": "add", "id": i, "ts": ts, "gap": gap})
+                if kind == "session":
+                    for st in steps:
+                        st["g"] = rng.choice(["a", "b", "c"])
                 cfg = mkcfg(kind, dict(c, al=0), rng)
                 # event time close behind the wall clock (the idle flush advances the watermark to now - MOO and the engine then
                 # steps through every window up to it): the scenario's windows end 15-25 s before now
                 import time as _t
-                period = c["size"] * c.get("slide", 1)
+                period = c["size"] * max(1, c.get("slide", 1))
                 cfg.update(idle=idle, ahead=False, unit=1000, base=((int(_t.time()) - 25) // period) * period)
                 sc = {"tr": n, "cfg": cfg, "steps": steps, "free": True}
                 scen[n] = sc
